@@ -266,6 +266,14 @@ def c13():
                 bs.append({"id": len(bs) + 1, "cfg": ["wa", "exp"][len(bs) % 2], "conc": len(bs) % 3, "cache": "none" if not remote else ["none", "default"][i % 2],
                            "labels": wide_labels, "values": ["x", "y"], "kinds": ["epoch_hash"], "prefix": wprefix, "procs": procs,
                            "schedule": [3] * i + [1] * 200 + [2] * 200 + [3] * 200})
+    # completion-gated runs: the answer of a reader's storage operation arrives only after a whole publish
+    # (a cache fill racing with the commit); cached local readers, then the final sweep must still be right
+    for ri, rd0 in enumerate(readers[:3] + [readers[4]]):
+        for i in (range(0, 10) if chk.tier == "quick" else range(0, 30)):
+            procs = [{"pid": 1, "kind": "publish", "batch": [["a", "x"]]}, dict(rd0, pid=3)]
+            bs.append({"id": len(bs) + 1, "cfg": ["wa", "exp"][len(bs) % 2], "conc": len(bs) % 3, "cache": "default", "labels": ["a", "b"], "values": ["x", "y"],
+                       "kinds": ["epoch_hash", "lookup"], "prefix": prefix + [[["b", "y"]]], "procs": procs, "post": True, "flush_before": True,
+                       "schedule": [3] * i + [1] * 200 + [3] * 200})
     ctraces = run_conc_harness(chk, bs)
     results = validate_traces("TraceDirectory", "TraceDirectory.cfg", ltraces + ctraces, chk.wd)
     chk.handle_validation(results)
